@@ -301,7 +301,7 @@ def sizes_for(ctx, fam):
 
 def cases(ctx, families=('planar', 'toric', 'rotatedtoric')):
     rng = random.Random(ctx.seed * 104729 + 1501)          # own stream: does not shift the other parts
-    per_size = ctx.scale(14, 60)
+    per_size = ctx.scale(30, 120)
     for fam in families:
         for size in sizes_for(ctx, fam):
             for _ in range(per_size):
